@@ -103,7 +103,7 @@ Fixpoint dec_args (cnt : nat) (l : list N) : option (list (N * value) * list N) 
   end.
 
 (* selection set: count, then items
-   0 fid rname fname nargs args sels | 1 hastc tc sels | 2 name *)
+   0 fid rname fname nargs args sels | 1 iid hastc tc sels | 2 name *)
 Fixpoint dec_sels (fuel : nat) (l : list N) : option (sels * list N) :=
   match fuel with
   | O => None
@@ -125,12 +125,12 @@ Fixpoint dec_sels (fuel : nat) (l : list N) : option (sels * list N) :=
                  | None => None end
                | None => None end
              | None => None end
-           | 1 :: has :: tc :: r1 =>
+           | 1 :: iid :: has :: tc :: r1 =>
              match dec_sels f r1 with
              | Some (sub, r2) =>
                match items c r2 with
                | Some (rest, r3) =>
-                 Some (SelInline (if has =? 0 then None else Some tc) sub rest, r3)
+                 Some (SelInline iid (if has =? 0 then None else Some tc) sub rest, r3)
                | None => None end
              | None => None end
            | 2 :: nm :: r1 =>
